@@ -506,6 +506,9 @@ func nextLeastSlice(slice1, slice2 []uint64, idx1, idx2 int) int {
 
 // getNextPos returns the next position in the given slices along with
 // index of the slice and the index of the sibling slice (if there's a sibling).
+// The returned sibling index is -2 if the position after the next position is
+// the same position again (a duplicated target or a target that is also the
+// ancestor of another target).
 func getNextPos(slice1, slice2 []uint64, slice1Idx, slice2Idx int) (uint64, int, int) {
 	// Grab the next position.
 	var pos uint64
@@ -524,11 +527,15 @@ func getNextPos(slice1, slice2 []uint64, slice1Idx, slice2Idx int) (uint64, int,
 	// Attempt to grab the sibling of the current position to process.
 	sibIdx := nextLeastSlice(slice1, slice2, slice1Idx, slice2Idx)
 	if sibIdx == 0 {
-		if rightSib(pos) != slice1[slice1Idx] {
+		if pos == slice1[slice1Idx] {
+			sibIdx = -2
+		} else if rightSib(pos) != slice1[slice1Idx] {
 			sibIdx = -1
 		}
 	} else if sibIdx == 1 {
-		if rightSib(pos) != slice2[slice2Idx] {
+		if pos == slice2[slice2Idx] {
+			sibIdx = -2
+		} else if rightSib(pos) != slice2[slice2Idx] {
 			sibIdx = -1
 		}
 	}
@@ -566,6 +573,12 @@ func calculateHashes(numLeaves uint64, delHashes []Hash, proof Proof) (hashAndPo
 		provePos, idx, sibIdx := getNextPos(toProve.positions, nextProves.positions, toProveIdx, nextProvesIdx)
 		if idx == -1 {
 			break
+		}
+		if sibIdx == -2 {
+			// A right sibling is its own rightSib() so the same
+			// position twice must never be taken for a sibling pair.
+			return hashAndPos{}, nil, fmt.Errorf("invalid proof. Position %d "+
+				"is given or calculated more than once", provePos)
 		}
 		if idx == 0 {
 			proveHash = toProve.hashes[toProveIdx]
